@@ -118,6 +118,7 @@ void do_call_t(MockType& m, int fn, int a0, int a1, Obs& o) {
     case FN_S: { std::string s = std::to_string(a0); o.sval = m.s(s); o.outcome = OC_RET_STR; break; }
     case FN_K: { int cell = a0; const MockType& cm = m; const int& r = cm.k(cell); o.refaddr = &r; o.outcome = OC_RET_REF; break; }
     case FN_Z: m.z(); o.outcome = OC_RET_VOID; break;
+    case FN_V: { std::vector<int> vec{a0, a0 + 1, a0}; m.v(vec); o.outcome = OC_RET_VOID; break; }
     default: break;
   }
 }
@@ -285,7 +286,7 @@ Plan gen_plan_t(uint64_t seed, bool faults) {
   for (int i = 0; i < nmocks; ++i) { Op o; o.kind = OP_NEW_MOCK; o.a[0] = rng.chance(1, 3) ? 1 : 0; p.setup.push_back(o); }
   for (int i = 0; i < nseqs; ++i) { Op o; o.kind = OP_NEW_SEQ; p.setup.push_back(o); }
   int nfocus = rng.range(1, 2), focus[2] = {0, 0};
-  static const int fw[NFN] = {10, 3, 5, 1, 2, 1, 2, 1, 2};
+  static const int fw[NFN] = {10, 3, 5, 1, 2, 1, 2, 1, 2, 1};
   for (int i = 0; i < nfocus; ++i) focus[i] = rng.pick(fw, NFN);
   auto gen_expect = [&](bool want_seq) {
     Op o; o.kind = OP_EXPECT;
